@@ -53,6 +53,6 @@ def obligations(ctx):
         obls.append(Obl("C07.accept_decodable.n%02d" % n, "C07", "harness/C07/accept_decodable.c",
                         entry="h_accept_decodable", defines={"RTOSC_C": raw, "N": str(n)}, mode="bounded",
                         bound="every buffer of exactly %d bytes" % n, termination=True,
-                        cbmc=["--unwind", str(n + 4), "--unwinding-assertions"], timeout=3000, mem_gb=12,
+                        cbmc=["--unwind", str(max(n + 4, 7)), "--unwinding-assertions"], timeout=3000, mem_gb=12,
                         case={"n": n}))
     return obls
